@@ -1,1 +1,1 @@
-import PyDBMLModel
+import PyDBMLProofs.Props.C13
